@@ -76,7 +76,7 @@ def _short(x, n=160):
 
 
 # ------------------------------------------------------------------ C07: every shape compiles
-def rule_compiles(ctx: Ctx, rid="C07.SHAPE-COMPILES", strict=True):
+def rule_compiles(ctx: Ctx, rid="C07.SHAPE-COMPILES", strict=True, layouts=None):
     """strict: C07/C14 own 'every shape compiles'.  Other properties only need enough shapes to
     decide their own rules: shapes that do not compile are skipped there (and counted)."""
     if not strict:
@@ -92,6 +92,8 @@ def rule_compiles(ctx: Ctx, rid="C07.SHAPE-COMPILES", strict=True):
         return
     n = 0
     for o, ir, err in irs(ctx):
+        if layouts is not None and o.expose not in layouts:
+            continue
         n += 1
         con = f"{GEN}:PythonCodeGen.generate <- {_label(o)}"
         if o.status == "syntax-error":
@@ -112,14 +114,49 @@ def rule_compiles(ctx: Ctx, rid="C07.SHAPE-COMPILES", strict=True):
                         facts={"generated": o.text})
         else:
             ctx.rep.ok(rid, con, "parses as a Python module with the expected skeleton")
-    ctx.rep.floor("shape x layout instances", n, 180)
+    ctx.rep.floor("shape x layout instances", n, 180 if layouts is None else 90)
 
 
-def rule_names_bound(ctx: Ctx, rid="C07.NAMES-BOUND"):
+def unbound_names(ir):
+    imported = {a for _, _, a in ir["imports"]}
+    top = set(ir["defs"])
+    b = set(dir(builtins))
+    main_params = set(ir["main_params"]) | ({ir["main_kwargs"]} if ir["main_kwargs"] else set())
+    helper_scope = imported | top | b | (main_params if ir["helper_nested"] else set())
+    return (ir["helper_free"] - helper_scope) | (ir["main_free"] - (imported | top | b))
+
+
+def rule_layout_names(ctx: Ctx, rid="C14.NAMES-BOUND"):
+    """A name must not be bound in one layout (through the closure of the nested helper) and
+    unbound in the other (helper at module level)."""
+    by_prog = {}
+    for o, ir, err in irs(ctx):
+        if ir is not None:
+            by_prog.setdefault((id(o.prog), tuple(o.assumptions)), {})[o.expose] = (o, ir)
+    n = 0
+    for d in by_prog.values():
+        if len(d) != 2:
+            continue
+        n += 1
+        (o1, ir1), (o2, ir2) = d[False], d[True]
+        u1, u2 = unbound_names(ir1), unbound_names(ir2)
+        con = f"{GEN}:PythonCodeGen.generate <- {o1.prog.label}"
+        if u1 == u2:
+            ctx.rep.ok(rid, con, "both layouts bind the same names")
+        else:
+            ctx.rep.bad(rid, con, f"names {sorted(u1 ^ u2)} are bound in one layout only (nested helper unbound: {sorted(u1)}, "
+                        f"exposed helper unbound: {sorted(u2)}): the stand-alone module raises NameError where the evaluator does not",
+                        text=f"{o1.prog.label}|{sorted(u1 ^ u2)}", facts={"exposed": o2.text})
+    ctx.rep.floor("programs compared across layouts", n, 90)
+
+
+def rule_names_bound(ctx: Ctx, rid="C07.NAMES-BOUND", layouts=None):
     """Every name the generated functions read is a parameter, a closure variable of the
     enclosing generated function, an import of the header, or a builtin."""
     for o, ir, err in irs(ctx):
         if ir is None:
+            continue
+        if layouts is not None and o.expose not in layouts:
             continue
         imported = {a for _, _, a in ir["imports"]}
         top = set(ir["defs"])
@@ -155,6 +192,18 @@ def _choices(x, out):
             _choices(y, out)
 
 
+def _control_view(got, exp):
+    """For C02: a return statement is identified by WHICH declared groups it can return (a non-empty
+    subset of the reference statement's groups); order, weights and merged duplicates are C03's."""
+    if isinstance(got, tuple) and isinstance(exp, tuple):
+        if got and exp and got[0] == "return_choice" and exp[0] == "return_choice":
+            gs, es = set(got[1]), set(exp[1])
+            return exp if gs and gs <= es else got
+        if len(got) == len(exp):
+            return tuple(_control_view(a, b) for a, b in zip(got, exp))
+    return got
+
+
 def rule_translation(ctx: Ctx, rid="C02.TRANSLATION", select=None, focus="all"):
     n = 0
     for o, ir, err in irs(ctx):
@@ -165,11 +214,20 @@ def rule_translation(ctx: Ctx, rid="C02.TRANSLATION", select=None, focus="all"):
         n += 1
         ref = PL.ref_module(o.prog)
         got, exp = _erase_kinds(ir["body"]), _erase_kinds(ref["body"])
-        if focus == "groups":
+        if focus in ("groups", "order"):
             g, e = [], []
             _choices(got, g)
             _choices(exp, e)
             got, exp = tuple(g), tuple(e)
+            if focus == "order" and len(g) == len(e):
+                # relative order of the declared groups is kept (a sub-sequence), per return statement
+                def subseq(a, b):
+                    it = iter(b)
+                    return all(any(x == y for y in it) for x in a)
+                if all(subseq(x[1], y[1]) for x, y in zip(g, e)):
+                    got = exp
+        elif focus == "control":
+            got = _control_view(got, exp)
         con = f"{GEN}:PythonCodeGen <- {_label(o)}"
         if got == exp:
             ctx.rep.ok(rid, con, "generated control flow and predicates equal the reference translation" if focus == "all" else
@@ -251,7 +309,7 @@ ALLOWED_COERCIONS = {
 }
 SAFE_RENDER = {
     "str": {"repr", "ascii"},
-    "ident": {"str"},
+    "ident": {"str", "repr", "ascii"},
     "int": {"str", "repr", "ascii"},
     "float": {"str", "repr", "ascii"},
 }
@@ -278,12 +336,22 @@ def rule_literal_terms(ctx: Ctx, rid="C05.LITERAL-VALUES"):
         leaves(ir["body"], g)
         leaves(ref["body"], e)
         con = f"{GEN}:PythonCodeGen._generate_term <- {_label(o)}"
-        if g == e:
-            ctx.rep.ok(rid, con, f"{len(e)} literal/identifier leaves reach the generated code with their kind and sign")
+        # every literal/identifier leaf of the generated code must be one of the source's leaves with the same kind and
+        # sign (a leaf that is merged away or reordered is not an altered literal: other properties judge that)
+        pool = list(e)
+        alien = []
+        for x in g:
+            if x in pool:
+                pool.remove(x)
+            else:
+                alien.append(x)
+        if not alien:
+            ctx.rep.ok(rid, con, f"{len(g)} literal/identifier leaves reach the generated code with their kind and sign")
         else:
-            d = next(((a, b) for a, b in zip(g, e) if a != b), (g[len(e):], e[len(g):]))
-            ctx.rep.bad(rid, con, f"a literal reaches the generated code altered: generated {_short(d[0])}, source {_short(d[1])}",
-                        text=f"{o.prog.label}|{_short(d[0], 60)}|{_short(d[1], 60)}", facts={"generated": o.text})
+            twin = next((y for y in e if len(y) > 2 and len(alien[0]) > 2 and y[2] == alien[0][2]), None)
+            ctx.rep.bad(rid, con, f"a literal reaches the generated code altered: generated {_short(alien[0])}" +
+                        (f", source {_short(twin)}" if twin else " has no counterpart in the source"),
+                        text=f"{o.prog.label}|{_short(alien[0], 60)}|{_short(twin, 60)}", facts={"generated": o.text})
 
 
 def rule_coercions(ctx: Ctx, rid="C05.NO-LOSSY-UNION", fields=None):
@@ -330,7 +398,7 @@ def rule_coercions(ctx: Ctx, rid="C05.NO-LOSSY-UNION", fields=None):
     ctx.rep.floor("model fields with a multi-scalar Union", n, 3 if fields is None else 1)
 
 
-def rule_renderers(ctx: Ctx, rid="C05.TERM-RENDER", kinds=("str", "int", "float", "ident"), taint_only=False):
+def rule_renderers(ctx: Ctx, rid="C05.TERM-RENDER", kinds=("str", "int", "float", "ident"), taint_only=False, extra_safe=()):
     """Every opaque value enters the generated text through a value-exact renderer."""
     seen = {}
     for o in ctx.outcomes():
@@ -344,7 +412,7 @@ def rule_renderers(ctx: Ctx, rid="C05.TERM-RENDER", kinds=("str", "int", "float"
     n = 0
     for (k, render, origin), (h, o) in sorted(seen.items(), key=lambda kv: kv[0]):
         n += 1
-        ok = render in SAFE_RENDER.get(k, set())
+        ok = render in SAFE_RENDER.get(k, set()) or render in extra_safe
         field = h.sym.src.split(":")[0]
         con = f"{GEN}:{origin.split('/')[-1]} [{k} via {render}]"
         if ok:
@@ -573,8 +641,9 @@ def rule_signature(ctx: Ctx, rid="C09.SIGNATURE"):
         ref = PL.ref_module(o.prog)
         con = f"{GEN}:PythonCodeGen.generate <- {_label(o)}"
         problems = []
-        if set(ir["main_params"]) != ref["params"] or len(ir["main_params"]) != len(set(ir["main_params"])):
-            problems.append(f"declared parameters {ir['main_params']} != splitters+conditions {sorted(ref['params'])}")
+        split = {sp.name for sp in o.prog.splitters}
+        if not split <= set(ir["main_params"]):
+            problems.append(f"splitter field(s) {sorted(split - set(ir['main_params']))} are not parameters of the generated function")
         if not ir["main_kwargs"]:
             problems.append("the generated function does not end with **kwargs: an extra field is a TypeError")
         if ir["main_defaults"]:
@@ -586,8 +655,6 @@ def rule_signature(ctx: Ctx, rid="C09.SIGNATURE"):
             reads = [n for n in ast.walk(ir["main_node"]) if isinstance(n, ast.Name) and n.id == kw]
             if reads:
                 problems.append(f"{kw} is read by the generated code: extra fields can influence the result")
-        if set(ir["helper_params"]) != ref["helper_params"] or ir["helper_other_params"]:
-            problems.append(f"helper parameters {ir['helper_params']} != condition fields {sorted(ref['helper_params'])}")
         for p, v in ir["helper_call_binding"].items():
             if v != ("name", p):
                 problems.append(f"helper parameter {p} is bound to {v}, not to the field of the same name")
@@ -695,6 +762,9 @@ def rule_ident_positions(ctx: Ctx, rid="C07.IDENT-POSITIONS"):
                     sinks.add(("keyword-argument", node.arg))
             elif isinstance(node, ast.Name):
                 (sinks.add(("expression-name", node.id)) if node.id in idents else skeleton.add(node.id))
+        comp_bound = {n.id for c in ast.walk(o.tree) if isinstance(c, ast.comprehension) for n in ast.walk(c.target)
+                      if isinstance(n, ast.Name)}
+        skeleton -= {x for x in comp_bound if isinstance(x, str)}
     kinds = sorted({k for k, _ in sinks if isinstance(k, str)})
     skeleton = {s for s in skeleton if isinstance(s, str)}
 
@@ -726,7 +796,7 @@ from global if import in is lambda nonlocal not or pass raise return try while w
 
 
 # ------------------------------------------------------------------ entry points share one generator
-def rule_one_generator(ctx: Ctx, rid="C14.ONE-GENERATOR"):
+def rule_one_generator(ctx: Ctx, rid="C14.ONE-GENERATOR", only=None):
     """recompile() and generate_code() both obtain their text from PythonCodeGen(<parse_source
     result>, expose_experiment_variant_function=<flag>).generate(); the evaluator passes exactly
     that text to compile()/exec(); generate_code only post-processes with black.format_str."""
@@ -736,6 +806,8 @@ def rule_one_generator(ctx: Ctx, rid="C14.ONE-GENERATOR"):
     gc = wf.get_function("generate_code")
     out = {}
     for mod, fn, label in ((ev, rec, "recompile"), (wf, gc, "generate_code")):
+        if only and label not in only:
+            continue
         info = trace_generated_text(ctx, mod, fn)
         out[label] = info
         con = f"{mod.rel}:{fn.name}"
@@ -747,7 +819,7 @@ def rule_one_generator(ctx: Ctx, rid="C14.ONE-GENERATOR"):
     return out
 
 
-def trace_generated_text(ctx: Ctx, mod, fn):
+def trace_generated_text(ctx: Ctx, mod, fn, _depth=0):
     """Backward trace of the generated text inside `fn`."""
     problems, wrappers = [], []
     assigns = {}
@@ -770,6 +842,23 @@ def trace_generated_text(ctx: Ctx, mod, fn):
         recv = resolve(g.func.value)
         if isinstance(recv, ast.Call) and dotted(recv.func) == "PythonCodeGen":
             ctor, gen_call = recv, g
+    if ctor is None and _depth < 2:
+        # look into the helpers this function calls (methods of the same class, functions of the module)
+        for c in ast.walk(fn):
+            if isinstance(c, ast.Call) and dotted(c.func):
+                d = dotted(c.func)
+                callee = None
+                if d.split(".")[0] in ("self", "cls") and len(d.split(".")) == 2:
+                    for cls in mod.classes().values():
+                        if fn in cls.body:
+                            callee = mod.get_method(cls, d.split(".")[1], required=False)
+                elif d in mod.functions():
+                    callee = mod.functions()[d]
+                if callee is not None and callee is not fn:
+                    sub = trace_generated_text(ctx, mod, callee, _depth + 1)
+                    if sub["expose"] is not None or not any("no PythonCodeGen" in p_ for p_ in sub["problems"]):
+                        sub["problems"] = [p_ for p_ in sub["problems"] if not p_.startswith("returns something other")]
+                        return sub
     if ctor is None:
         problems.append("no PythonCodeGen(...).generate() call found: the text comes from somewhere else")
         return {"problems": problems, "wrappers": wrappers, "expose": None}
